@@ -1,7 +1,7 @@
 (* Proofs about the UuidMap / Solution model over histories of runs: GUID stability, uniqueness,
    forgetting of removed projects, dependency closure.  The fresh-id oracle is a section variable
    with the hypothesis that it never repeats; stored ids are required to be old (invariant FInv). *)
-From Coq Require Import Arith Lia FinFun.
+From Coq Require Import Arith Lia FinFun Permutation.
 From BFG Require Import Base.Chars State.Uuid.
 
 (* ---- association lists ---- *)
@@ -503,5 +503,95 @@ Proof.
     apply in_map_iff. exists (k3, q). split; auto.
   - destruct (D key p d Hin Hd) as (k2 & q & Hq & E). exists q. split; [|assumption].
     apply in_map_iff. exists (k2, q). split; auto.
+Qed.
+
+(* ---- every step has exactly one Project entry, and the default project comes first ---- *)
+Definition kn (kp : pkey * project) : pkey * str := (fst kp, p_name (snd kp)).
+Definition skn (sp : spec) : pkey * str := (PK (sp_key sp), sp_name sp).
+
+Lemma add_projects_names : forall specs st projs st' projs',
+  add_projects fresh st projs specs = (st', Some projs') ->
+  NoDup (map sp_key specs) -> (forall sp, In sp specs -> dict_get (PK (sp_key sp)) projs = None) ->
+  map kn projs' = map kn projs ++ map skn specs.
+Proof.
+  induction specs as [|sp r IH]; intros st projs st' projs' H ND Hf; cbn in H.
+  - inversion H; subst. cbn. now rewrite app_nil_r.
+  - destruct (dependencies projs (sp_deps sp)) as [ds|] eqn:Dp; [|discriminate].
+    destruct (getitem fresh st (sp_name sp)) as [st1 u].
+    rewrite dict_set_fresh in H by (apply Hf; now left).
+    inversion ND as [|? ? Hn ND']; subst.
+    apply IH in H; auto.
+    + rewrite H, map_app. cbn. now rewrite <- app_assoc.
+    + intros sp' Hsp'. rewrite dict_get_app. rewrite (Hf sp') by now right. cbn.
+      destruct (str_eqb (sp_key sp) (sp_key sp')) eqn:E; [|reflexivity].
+      apply str_eqb_eq in E. exfalso. apply Hn. rewrite E. now apply in_map.
+Qed.
+
+Lemma dict_get_In_key k d v : dict_get k d = Some v -> In (k, v) d.
+Proof.
+  induction d as [|[k' v'] r IH]; cbn; [discriminate|]. destruct (pkey_eqb k' k) eqn:E.
+  - intros H. inversion H. subst. apply pkey_eqb_eq in E. subst. now left.
+  - intros H. right. auto.
+Qed.
+
+Lemma In_dict_get k d : In k (map fst d) -> exists v, dict_get k d = Some v.
+Proof.
+  induction d as [|[k' v'] r IH]; cbn; [tauto|]. intros [H|H].
+  - subst. replace (pkey_eqb k k) with true by (symmetry; now apply pkey_eqb_eq). eauto.
+  - destruct (pkey_eqb k' k); eauto.
+Qed.
+
+Lemma dict_remove_perm k d p0 : dict_get k d = Some p0 ->
+  Permutation (p0 :: map snd (dict_remove k d)) (map snd d).
+Proof.
+  induction d as [|[k' v'] r IH]; cbn; [discriminate|]. destruct (pkey_eqb k' k).
+  - intros H. inversion H. subst. apply Permutation_refl.
+  - intros H. cbn. eapply perm_trans; [apply perm_swap|]. apply perm_skip. auto.
+Qed.
+
+Lemma set_default_shape d k p0 : NoDup (map fst d) -> (forall key q, In (key, q) d -> key <> PKeyLit) ->
+  dict_get (PK k) d = Some p0 -> set_default d k = (PKeyLit, p0) :: dict_remove (PK k) d.
+Proof.
+  intros ND HK G. unfold set_default. rewrite G. rewrite fold_fresh; [reflexivity| |].
+  - now apply dict_remove_keys.
+  - intros [k' v'] Hin'. cbn. apply dict_remove_In in Hin'. apply HK in Hin'. destruct k'; [reflexivity|congruence].
+Qed.
+
+(* a successful run whose steps have pairwise distinct keys writes exactly one Project entry per step
+   (whatever the defaults are), and when the chosen default (the first explicit one, else the last
+   implicit one) is a step of the solution, its project is the first entry *)
+Theorem default_wellformed f n r f' n' su ps : run fresh f n r = ((f', n'), RunOk (su, ps)) ->
+  NoDup (map sp_key (r_specs r)) ->
+  Permutation (map p_name ps) (map sp_name (r_specs r)) /\
+  (forall k, default_choice (r_explicit r) (r_fallback r) = Some k -> In k (map sp_key (r_specs r)) ->
+     exists sp p, In sp (r_specs r) /\ sp_key sp = k /\ hd_error ps = Some p /\ p_name p = sp_name sp).
+Proof.
+  unfold run. intros H ND. destruct (load f) as [m0|]; [|discriminate].
+  destruct (getitem fresh {| um_map := m0; um_seen := []; um_next := n |} []) as [st1 su1].
+  destruct (add_projects fresh st1 [] (r_specs r)) as [st2 [projs|]] eqn:AP; [|discriminate].
+  pose proof (add_projects_names _ _ _ _ _ AP ND (fun sp _ => eq_refl)) as KN. cbn in KN.
+  assert (K : map fst projs = map (fun sp => PK (sp_key sp)) (r_specs r)).
+  { apply (f_equal (map fst)) in KN. rewrite !map_map in KN. exact KN. }
+  assert (N : map p_name (map snd projs) = map sp_name (r_specs r)).
+  { apply (f_equal (map snd)) in KN. rewrite !map_map in KN. rewrite map_map. exact KN. }
+  assert (NDk : NoDup (map fst projs)).
+  { rewrite K, <- (map_map sp_key PK). apply FinFun.Injective_map_NoDup; [|assumption].
+    intros a b E. now inversion E. }
+  assert (HK : forall key0 q, In (key0, q) projs -> key0 <> PKeyLit).
+  { intros key0 q Hq. apply (in_map fst) in Hq. rewrite K in Hq. cbn in Hq.
+    apply in_map_iff in Hq as [sp [E _]]. rewrite <- E. discriminate. }
+  inversion H; subst; clear H. unfold r_default.
+  destruct (default_choice (r_explicit r) (r_fallback r)) as [k|]; [|split; [now rewrite N|discriminate]].
+  destruct (dict_get (PK k) projs) as [p0|] eqn:G.
+  - rewrite (set_default_shape _ _ _ NDk HK G). split.
+    + rewrite <- N. apply Permutation_map. cbn. now apply dict_remove_perm.
+    + intros k0 E Hin. inversion E; subst k0. apply dict_get_In_key in G.
+      apply (in_map kn) in G. rewrite KN in G. apply in_map_iff in G as [sp [E2 Hsp]].
+      unfold kn, skn in E2. cbn in E2. inversion E2. exists sp, p0. repeat split; auto.
+  - unfold set_default. rewrite G. split; [now rewrite N|].
+    intros k0 E Hin. inversion E; subst k0. exfalso.
+    assert (In (PK k) (map fst projs)) as Hk.
+    { rewrite K, <- (map_map sp_key PK). now apply in_map. }
+    apply In_dict_get in Hk as [v Hv]. congruence.
 Qed.
 End Deps.
